@@ -49,6 +49,8 @@ func places(coll string) []int {
 		return []int{0, 1}
 	case "REQUEST_HEADERS":
 		return []int{2, 0}
+	case "RESPONSE_HEADERS", "RESPONSE_HEADERS_NAMES":
+		return []int{4, 2}
 	default:
 		return []int{3, 2}
 	}
@@ -100,6 +102,52 @@ func genRules(thorough bool, emit func(r *sm.Rule)) {
 	}
 }
 
+// genRulesLate: the response and logging phases (the property quantifies over every phase and over responses). Request
+// collections read in phases 3-5, response header collections read in every phase (empty before phase 3).
+func genRulesLate(thorough bool, emit func(r *sm.Rule)) {
+	sels := []sel{{}, {key: "a"}, {key: "A"}, {rx: "^a"}, {rx: "^A$"}, {count: true}, {count: true, key: "a"}}
+	type ex struct{ key, rx string }
+	excls := []*ex{nil, {key: "a"}}
+	type op struct{ op, arg string }
+	ops := []op{{"streq", "x"}, {"rx", "^x"}, {"eq", "1"}}
+	if thorough {
+		excls = append(excls, &ex{rx: "^b"})
+		ops = append(ops, op{"unconditionalMatch", ""})
+	}
+	for _, c := range []string{"ARGS", "REQUEST_COOKIES", "RESPONSE_HEADERS", "RESPONSE_HEADERS_NAMES"} {
+		phases := []int{3, 4, 5}
+		if strings.HasPrefix(c, "RESPONSE") {
+			phases = []int{1, 2, 3, 4, 5}
+		}
+		for _, s := range sels {
+			for _, e := range excls {
+				for _, tr := range [][]string{nil, {"lowercase"}} {
+					for _, o := range ops {
+						for _, neg := range []bool{false, true} {
+							for _, multi := range []bool{false, true} {
+								if multi && len(tr) == 0 {
+									continue
+								}
+								for _, phase := range phases {
+									r := &sm.Rule{ID: 1, Phase: phase, Targets: []sm.Target{{Coll: c, Key: s.key, Rx: s.rx, Count: s.count}},
+										Trans: tr, Op: o.op, Arg: o.arg, Neg: neg, Multi: multi}
+									if e != nil {
+										r.Excls = []sm.Excl{{Coll: c, Key: e.key, Rx: e.rx}}
+									}
+									emit(r)
+								}
+							}
+						}
+					}
+				}
+			}
+		}
+	}
+}
+
+// late: generated requests carry a response (set by the caller around genRequests).
+var late bool
+
 func genRequests(thorough bool, pl []int, emit func(q sm.Request)) {
 	names := []string{"a", "A", "b"}
 	values := []string{"x", "X", " x"}
@@ -137,8 +185,11 @@ func genRequests(thorough bool, pl []int, emit func(q sm.Request)) {
 				q.Hdr = append(q.Hdr, it.p)
 			case 3:
 				q.Cookie = append(q.Cookie, it.p)
+			case 4:
+				q.RespHdr = append(q.RespHdr, it.p)
 			}
 		}
+		q.Resp = late
 		return q
 	}
 	emit(build())
@@ -162,6 +213,16 @@ func run(c *runner.Ctx) {
 		}
 		checkProgram(c, []*sm.Rule{r}, places(r.Targets[0].Coll))
 	})
+	// part 1b: response and logging phases
+	late = true
+	genRulesLate(c.Thorough(), func(r *sm.Rule) {
+		idx++
+		if !c.Mine(idx) || c.Expired() {
+			return
+		}
+		checkProgram(c, []*sm.Rule{r}, places(r.Targets[0].Coll))
+	})
+	late = false
 	// part 2: two-rule programs (configuration order, two targets) and chains
 	second := []*sm.Rule{
 		{Targets: []sm.Target{{Coll: "ARGS_GET"}}, Op: "rx", Arg: "^x", Trans: []string{"lowercase"}},
@@ -187,12 +248,13 @@ func run(c *runner.Ctx) {
 	checkMatchedVarsScope(c, &idx)
 	for _, f := range first {
 		for _, s := range second {
-			for _, ph := range [][2]int{{2, 2}, {2, 1}, {1, 2}} {
+			for _, ph := range [][2]int{{2, 2}, {2, 1}, {1, 2}, {3, 3}, {4, 3}, {5, 4}, {5, 2}, {4, 4}, {5, 5}} {
 				for _, chain := range []bool{false, true} {
 					idx++
 					if !c.Mine(idx) || c.Expired() {
 						continue
 					}
+					late = ph[0] >= 3
 					a, b := *f, *s
 					a.ID, a.Phase = 1, ph[0]
 					if chain {
@@ -203,6 +265,7 @@ func run(c *runner.Ctx) {
 						b.ID, b.Phase = 2, ph[1]
 						checkProgram(c, []*sm.Rule{&a, &b}, []int{0, 1})
 					}
+					late = false
 				}
 			}
 		}
@@ -460,6 +523,9 @@ func checkProgram(c *runner.Ctx, rules []*sm.Rule, pl []int) {
 		for _, p := range q.Cookie {
 			ks = append(ks, pairKey("cookie", p))
 		}
+		for _, p := range q.RespHdr {
+			ks = append(ks, pairKey("resphdr", p))
+		}
 		return ks
 	}
 	datasOf := func(o *probe.Outcome) []string {
@@ -544,7 +610,7 @@ func nonTrivial(rules []*sm.Rule, q sm.Request) bool {
 				t.Count = false
 				nc.Targets = append(nc.Targets, t)
 			}
-			if s, ok := sm.Select(&nc, q, 2); ok && len(s) > 0 {
+			if s, ok := sm.Select(&nc, q, 5); ok && len(s) > 0 {
 				return true
 			}
 		}
@@ -655,16 +721,19 @@ func replay(raw json.RawMessage) (bool, string) {
 		parts := 0
 		one := func(q sm.Request) { union = append(union, datas(q)...); parts++ }
 		for _, p := range k.Req.Get {
-			one(sm.Request{Get: []sm.Pair{p}})
+			one(sm.Request{Get: []sm.Pair{p}, Resp: k.Req.Resp})
 		}
 		for _, p := range k.Req.Post {
-			one(sm.Request{Post: []sm.Pair{p}})
+			one(sm.Request{Post: []sm.Pair{p}, Resp: k.Req.Resp})
 		}
 		for _, p := range k.Req.Hdr {
-			one(sm.Request{Hdr: []sm.Pair{p}})
+			one(sm.Request{Hdr: []sm.Pair{p}, Resp: k.Req.Resp})
 		}
 		for _, p := range k.Req.Cookie {
-			one(sm.Request{Cookie: []sm.Pair{p}})
+			one(sm.Request{Cookie: []sm.Pair{p}, Resp: k.Req.Resp})
+		}
+		for _, p := range k.Req.RespHdr {
+			one(sm.Request{RespHdr: []sm.Pair{p}, Resp: true})
 		}
 		sort.Strings(union)
 		both := datas(k.Req)
